@@ -58,6 +58,15 @@ def run(ctx):
     vf.drv(ctx, ["c14stress", out2, str(nb)], timeout=1800)
     stress = vf.read_ndjson(out2)
     ctx.cov["stress_bursts"] = len(stress)
+    # many bursts give the same history up to the absolute values of the call/return stamps: judge one of each
+    seen = {}
+    for t in stress:
+        stamps = sorted(set([o["call"] for o in t["ops"]] + [o["ret"] for o in t["ops"]]))
+        rank = {v: k for k, v in enumerate(stamps)}
+        key = json.dumps([t["init"], t["ek"], sorted([o["t"], o["i"], o["op"], o["res"], rank[o["call"]], rank[o["ret"]]] for o in t["ops"]), t.get("panic"), t.get("stuck")], sort_keys=True)
+        seen.setdefault(key, t)
+    stress = list(seen.values())
+    ctx.cov["stress_histories_distinct"] = len(stress)
     recs = recs + stress
     bad, g, d = vf.judge_records(ctx, "sync", "RecC14", "RecC14.cfg", recs, shards=4, timeout=1800)
     ctx.add("states", d)
